@@ -681,6 +681,10 @@ impl Controller for Installed {
 
     fn before_gc(&mut self, rt: &RuntimeData) {
         let mut s = self.0.borrow_mut();
+        {
+            let a: &CaoLangAllocator = &rt.verif_memory();
+            s.settle_pending(a);
+        }
         s.in_gc = true;
         s.c.gcs += 1;
         if s.forced_this_alloc {
@@ -713,6 +717,10 @@ impl Controller for Installed {
 
     fn after_gc(&mut self, rt: &RuntimeData) {
         let mut s = self.0.borrow_mut();
+        {
+            let a: &CaoLangAllocator = &rt.verif_memory();
+            s.settle_pending(a);
+        }
         s.in_gc = false;
         let view = rt.verif_view();
         if s.cfg.quarantine {
@@ -741,7 +749,10 @@ impl Controller for Installed {
 
     fn on_free_object(&mut self, rt: &RuntimeData, obj: NonNull<CaoLangObject>) -> bool {
         let mut s = self.0.borrow_mut();
-        let _ = rt;
+        {
+            let a: &CaoLangAllocator = &rt.verif_memory();
+            s.settle_pending(a);
+        }
         let p = obj.as_ptr() as usize;
         if s.freed_objects.contains(&p) || s.quarantine.contains_key(&p) {
             let site = s.site();
